@@ -245,6 +245,46 @@ def _names_op(fl, cfg: CFG, call: ast.Call, loop_node, f: Def) -> bool:
     return False
 
 
+@rule("EVENTS-HELPERS-1", props=["C13"], floor=3)
+def events_helpers(ctx: Ctx) -> None:
+    """the three dispatch helpers deliver their event to every callback that was given: a
+    plain loop over the `callbacks` argument calling the matching Callback method, guarded only
+    by "callbacks were given" """
+    repo = ctx.repo
+    for q, meth in ((OP_START, "on_operation_start"), (OP_END, "on_operation_end"), (TASK_END, "on_task_end")):
+        h = repo.get(q)
+        cfg = cfg_of(h)
+        cbp = h.params[0]
+        calls_ = [c for c in h.own_nodes() if isinstance(c, ast.Call) and isinstance(c.func, ast.Attribute) and c.func.attr == meth and cfg.has(c)]
+        ok = len(calls_) == 1
+        why = f"found {len(calls_)} calls of .{meth}()"
+        if ok:
+            c = calls_[0]
+            nid = cfg.node_of(c)
+            lp = cfg.nodes[nid].loops
+            ok = bool(lp) and isinstance(cfg.nodes[lp[-1]].stmt, ast.For) and isinstance(cfg.nodes[lp[-1]].stmt.iter, ast.Name) and cfg.nodes[lp[-1]].stmt.iter.id == cbp and isinstance(c.func.value, ast.Name) and c.func.value.id in {x.id for x in ast.walk(cfg.nodes[lp[-1]].stmt.target) if isinstance(x, ast.Name)}
+            why = "not inside a loop over the callbacks argument"
+            if ok:
+                extra = []
+                for t, pol, b in cfg.branch_conditions(nid):
+                    for fact, fp in conjuncts(t, pol):
+                        names = {x.id for x in ast.walk(fact) if isinstance(x, ast.Name)}
+                        given = None
+                        if names == {cbp}:
+                            if isinstance(fact, ast.Name):
+                                given = fp
+                            elif isinstance(fact, ast.Compare) and isinstance(fact.comparators[0], ast.Constant) and fact.comparators[0].value is None:
+                                given = fp if isinstance(fact.ops[0], ast.IsNot) else (not fp) if isinstance(fact.ops[0], ast.Is) else None
+                        if given is True:
+                            continue
+                        extra.append(("" if fp else "not ") + unparse(fact, 40))
+                ok = not extra
+                why = f"conditional on `{extra[0]}`" if extra else ""
+                # one event object per call, built from the helper's own arguments
+                ok = ok and len(c.args) == 1
+        ctx.ob(h, calls_[0] if calls_ else h.node, ok, f"{h.name} calls `{meth}` on every callback it was given" + ("" if ok else f" — {why}"), sel=f"helper:{meth}")
+
+
 @rule("STATS-1", props=["C13"], floor=2)
 def stats(ctx: Ctx) -> None:
     """the plan's total task count sums num_tasks over every op node with a primitive op,
